@@ -67,6 +67,22 @@ CHECKS = {
    "A harness-defined TextDecorator family parameterised by 19 strings over ASCII / 2-byte width-1 / 3-byte width-2 / combining characters: totality and width bound on grammar documents (debug assertions on), compositionality of prefixed blocks with the prefix measured by display width (differential on sub-documents), and verbatim reproduction of affixes around identifying-character text (model of the expected character stream).",
    "Trusted: display width = sum of unicode-width character widths; whitespace inside affixes not compared; the TrivialDecorator clause is decided by C03's trivial-decorator sub-checks.",
    "property-based testing (proptest; generated decorators, compositional differential + stream model)"),
+ "C17": ("exploration",
+   "(a) Robustness: generated strings (CSS token soup, random bytes, truncated valid sheets) through add_css / add_agent_css and inside <style>: Ok or CssParseError, never a panic or hang (watchdog), no effect without use_doc_css, same characters with it unless layout properties are mentioned. (b) Metamorphic: a valid generated sheet and an equivalent spelling (layout, comments, case, final semicolon dropped/doubled, unknown properties, junk at-rules and unparsable rule sets in between) must give the same dom_to_parsed_style and the same rich tagged lines.",
+   "Trusted: the variant writer only produces CSS-insignificant differences; a hang is declared after 60 s without progress on one string.",
+   "property-based testing + grammar-based fuzzing (proptest; robustness oracle and metamorphic spelling variants)"),
+ "C18": ("exploration",
+   "Differential: the hidden set is computed by the harness's own selector matcher and cascade on the oracle DOM; rendering with the CSS must be byte-identical (and tagged-line-identical for rich) to rendering the re-serialised oracle DOM with the hidden subtrees removed and all styles stripped; with use_doc_css off the document must render as with its styles stripped.",
+   "Trusted: the oracle DOM serialiser (validated per case by a round trip; mismatches discarded and counted); hide-only sheets (a losing display:none still hiding is a known finding).",
+   "property-based testing (proptest; differential against deletion on an independent oracle DOM)"),
+ "C19": ("exploration",
+   "Reference-model oracle: the harness's own cascade (importance-and-origin rank, inline, specificity, source order). Exhaustive over all ordered pairs (both properties) and all ordered triples of 32 declaration kinds on one element through all four delivery routes; random agent+user+author sheets and inline styles over nested documents compared as full annotation vectors.",
+   "Trusted: the reference cascade (20 lines) and reference matcher; unique colour per declaration identifies the winner.",
+   "bounded-exhaustive enumeration + property-based testing (proptest) against a reference cascade"),
+ "C20": ("exploration",
+   "Reference-model oracle: an independent right-to-left selector matcher with backtracking over the oracle DOM; a single colour rule on a generated selector list must colour exactly the text under matching elements, once per matching ancestor (full annotation vectors). Selectors are derived from the document's own elements (so they match) or random; exhaustive :nth-child(an+b) for a,b in -5..=5 in 4 spellings on sibling lists of length 0..=8.",
+   "Trusted: the reference matcher (HTML no-quirks rules); table-free documents.",
+   "bounded-exhaustive enumeration + property-based testing (proptest) against a reference selector matcher"),
 }
 
 ORDER = ["C01","C02","C03","C04","C05","C06","C07","C08","C09","C10","C11","C12","C13","C14","C15","C16","C17","C18","C19","C20"]
